@@ -884,7 +884,7 @@ func mkCase(id int, name string, mode int, out [4]int, r *kit.Rand) Case {
 
 func main() {
 	run := kit.Start()
-	run.Header = "From FunV Require Import Base.Tac Model.ServiceModel Corr.C10_corr."
+	run.Header = "From FunV Require Import Base.Tac Model.ServiceModel Model.ServiceAccept Corr.C10_corr."
 	run.Footer = "Definition M := Eval vm_compute in mismatches cases.\nPrint M."
 	run.CaseType = "case"
 	run.ShardSize = 100
